@@ -1,4 +1,4 @@
-// private development binary for C03/C11 (deleted when the checks are registered)
+// private development binary for C08 (removed when the check is registered in cmd/vh)
 package main
 
 import (
@@ -8,8 +8,7 @@ import (
 
 	"verif/harness/internal/vf"
 
-	_ "verif/harness/internal/c03"
-	_ "verif/harness/internal/c11"
+	_ "verif/harness/internal/c08"
 )
 
 func main() {
